@@ -1341,6 +1341,196 @@ UNIT2_CLASSES = ["EmptyElement", "NumericElement", "IntegerElement", "ProtectedS
                  "MetadataSetting", "Annotations", "Annotation"]
 
 
+# ---------------------------------------------------------------------------------------------
+# unit 3: effects_layer.py
+# ---------------------------------------------------------------------------------------------
+def _E():
+    import importlib
+    return importlib.import_module("psd_tools.psd.effects_layer")
+
+
+def bm_token(b):
+    if not hasattr(b, "value") or not isinstance(b.value, (bytes, bytearray)):
+        raise NotRep("blend mode is not a BlendMode member")
+    return hx(bytes(b.value))
+
+
+def opt_color_tokens(c):
+    return t_opt(c, color_tokens)
+
+
+def glow_body_tokens(x):
+    return [t_nat(x.version), t_nat(x.blur), t_nat(x.intensity), *color_tokens(x.color), bm_token(x.blend_mode), t_nat(x.enabled),
+            t_nat(x.opacity)]
+
+
+def effect_tokens(x):
+    nm = type(x).__name__
+    if nm == "CommonStateInfo":
+        return ["0", t_nat(x.version), t_nat(x.visible)]
+    if nm == "ShadowInfo":
+        return ["1", t_nat(x.version), t_nat(x.blur), t_nat(x.intensity), t_int(x.angle), t_nat(x.distance), *color_tokens(x.color),
+                bm_token(x.blend_mode), t_nat(x.enabled), t_nat(x.use_global_angle), t_nat(x.opacity), *color_tokens(x.native_color)]
+    if nm == "OuterGlowInfo":
+        return ["2", *glow_body_tokens(x), *opt_color_tokens(x.native_color)]
+    if nm == "InnerGlowInfo":
+        return ["3", *glow_body_tokens(x), *t_opt(x.invert, lambda n: [t_nat(n)]), *opt_color_tokens(x.native_color)]
+    if nm == "BevelInfo":
+        return ["4", t_nat(x.version), t_int(x.angle), t_nat(x.depth), t_nat(x.blur), bm_token(x.highlight_blend_mode),
+                bm_token(x.shadow_blend_mode), *color_tokens(x.highlight_color), *color_tokens(x.shadow_color), t_nat(x.bevel_style),
+                t_nat(x.highlight_opacity), t_nat(x.shadow_opacity), t_nat(x.enabled), t_nat(x.use_global_angle), t_nat(x.direction),
+                *opt_color_tokens(x.real_highlight_color), *opt_color_tokens(x.real_shadow_color)]
+    if nm == "SolidFillInfo":
+        return ["5", t_nat(x.version), bm_token(x.blend_mode), *color_tokens(x.color), t_nat(x.opacity), t_nat(x.enabled),
+                *color_tokens(x.native_color)]
+    raise NotRep("not an effect info: " + nm)
+
+
+def effect_excluded(x):
+    nm = type(x).__name__
+    if nm == "OuterGlowInfo" and (x.version >= 2) != (x.native_color is not None):
+        return "trailer-does-not-match-version"
+    if nm == "InnerGlowInfo" and x.version < 2 and (x.invert is not None or x.native_color is not None):
+        return "trailer-does-not-match-version"
+    if nm == "BevelInfo" and x.version < 2 and (x.real_highlight_color is not None or x.real_shadow_color is not None):
+        return "trailer-does-not-match-version"
+    return None
+
+
+def gen_effect_infos(rng, quick):
+    """{class name: [(origin, instance)]}"""
+    E, C = _E(), _C()
+    cols = gen_colors(rng)
+    col = lambda: copy.deepcopy(rng.choice(cols))
+    bms = list(C.BlendMode)
+    u32 = lambda: rng.choice([0, 1, 2 ** 32 - 1, rng.randrange(2 ** 32)])
+    u8 = lambda: rng.choice([0, 1, 255, rng.randrange(256)])
+    i32 = lambda: rng.choice([0, -1, 2 ** 31 - 1, -2 ** 31, rng.randrange(-360, 360)])
+    n = 3 if quick else 40
+    out = collections.defaultdict(list)
+    out["CommonStateInfo"] += [("boundary", E.CommonStateInfo()), ("boundary", E.CommonStateInfo(2 ** 32 - 1, 255)),
+                               ("breaking", E.CommonStateInfo(2 ** 32, 0)), ("breaking", E.CommonStateInfo(0, 256))]
+    for bm in (bms if not quick else bms[::5]):
+        out["ShadowInfo"].append(("boundary", E.ShadowInfo(rng.choice([0, 2]), u32(), u32(), i32(), u32(), col(), bm, u8(), u8(), u8(), col())))
+    out["ShadowInfo"] += [("breaking", E.ShadowInfo(angle=2 ** 31)), ("breaking", E.ShadowInfo(opacity=256))]
+    for ver in (0, 1, 2, 3, 2 ** 32 - 1):
+        for _ in range(n):
+            bm = rng.choice(bms)
+            out["OuterGlowInfo"].append(("boundary", E.OuterGlowInfo(ver, u32(), u32(), col(), bm, u8(), u8(), col() if ver >= 2 else None)))
+            out["InnerGlowInfo"].append(("boundary", E.InnerGlowInfo(ver, u32(), u32(), col(), bm, u8(), u8(), u8() if ver >= 2 else None,
+                                                                      col() if ver >= 2 else None)))
+            out["BevelInfo"].append(("boundary", E.BevelInfo(ver, i32(), u32(), u32(), rng.choice(bms), rng.choice(bms), col(), col(), u8(), u8(),
+                                                              u8(), u8(), u8(), u8(), col() if ver >= 2 else None, col() if ver >= 2 else None)))
+            out["SolidFillInfo"].append(("boundary", E.SolidFillInfo(ver, rng.choice(bms), col(), u8(), u8(), col())))
+    out["OuterGlowInfo"] += [("excluded", E.OuterGlowInfo(2, native_color=None)), ("excluded", E.OuterGlowInfo(0, native_color=col())),
+                             ("breaking", E.OuterGlowInfo(2 ** 32))]
+    out["InnerGlowInfo"] += [("excluded", E.InnerGlowInfo(0, invert=1, native_color=col())), ("excluded", E.InnerGlowInfo(1, invert=0)),
+                             ("breaking", E.InnerGlowInfo(2, invert=256, native_color=col())),
+                             ("breaking", E.InnerGlowInfo(2, invert=None, native_color=col()))]
+    out["BevelInfo"] += [("excluded", E.BevelInfo(0, real_highlight_color=col(), real_shadow_color=col())),
+                         ("breaking", E.BevelInfo(2, bevel_style=256, real_highlight_color=col(), real_shadow_color=col()))]
+    out["SolidFillInfo"] += [("boundary", E.SolidFillInfo()), ("breaking", E.SolidFillInfo(opacity=256))]
+    return out
+
+
+class EffectInfoSpec(Spec):
+    def __init__(self, name, infos):
+        self.name, self._infos = name, infos
+        self.offsets = (0, 3, 4, 8, 12, 16, 20, 22, 30, 34, 38, 40, 44, 46, 57, 58, 68)
+
+    def K(self):
+        return getattr(_E(), self.name)
+
+    def tokens(self, x):
+        return " ".join(effect_tokens(x)[1:])
+
+    def write_kw(self, v, pad):
+        return {}
+
+    def read_kw(self, v, rpad):
+        return {}
+
+    def excluded(self, x, pad=None, rpad=None):
+        return effect_excluded(x)
+
+    def instances(self, rng, quick):
+        return self._infos.get(self.name, [])
+
+
+class EffectsLayerSpec(Spec):
+    name = "EffectsLayer"
+    offsets = (0, 2, 3, 4, 8, 11, 12, 15, 16, 23, 24, 28, 32)
+
+    def __init__(self, infos):
+        self._infos = infos
+
+    def K(self):
+        return _E().EffectsLayer
+
+    def tokens(self, x):
+        items = []
+        for k in x:
+            kv = getattr(k, "value", k)
+            items.append((kv, x[k]))
+        return " ".join([t_nat(x.version), *t_list(items, lambda kv: [t_bytes(kv[0]), *effect_tokens(kv[1])])])
+
+    def excluded(self, x, pad=None, rpad=None):
+        E = _E()
+        for k in x:
+            if E.EffectsLayer.EFFECT_TYPES.get(k) is not type(x[k]):
+                return "class-does-not-match-key"
+            why = effect_excluded(x[k])
+            if why:
+                return why
+        return None
+
+    def instances(self, rng, quick):
+        E, C = _E(), _C()
+        K = self.K()
+        good = {nm: [x for o, x in xs if o == "boundary"] for nm, xs in self._infos.items()}
+        out = [("boundary", K()), ("boundary", K(version=65535))]
+        for _ in range(8 if quick else 200):
+            keys = [k for k in C.EffectOSType if rng.random() < 0.6]
+            rng.shuffle(keys)
+            items = [(k, copy.deepcopy(rng.choice(good[K.EFFECT_TYPES[k].__name__]))) for k in keys]
+            out.append(("generated", K(version=rng.choice([0, 1]), items=items)))
+        out.append(("boundary", K(version=0, items=[(k, copy.deepcopy(good[K.EFFECT_TYPES[k].__name__][0])) for k in C.EffectOSType])))
+        out.append(("excluded", K(items=[(C.EffectOSType.BEVEL, E.SolidFillInfo())])))
+        out.append(("excluded", K(items=[(C.EffectOSType.OUTER_GLOW, E.OuterGlowInfo(0, native_color=gen_colors(rng)[0]))])))
+        out.append(("breaking", K(version=65536)))
+        return out
+
+
+def unit3_specs(rng, quick):
+    infos = gen_effect_infos(rng, quick)
+    return [EffectInfoSpec(nm, infos) for nm in ("CommonStateInfo", "ShadowInfo", "OuterGlowInfo", "InnerGlowInfo", "BevelInfo",
+                                                 "SolidFillInfo")] + [EffectsLayerSpec(infos)]
+
+
+UNIT3_CLASSES = ["CommonStateInfo", "ShadowInfo", "OuterGlowInfo", "InnerGlowInfo", "BevelInfo", "SolidFillInfo", "EffectsLayer"]
+
+
+def unit3_witnesses(ctx):
+    E = _E()
+    cols = gen_colors(ctx.rng)
+    x = E.BevelInfo(version=3, real_highlight_color=cols[0], real_shadow_color=cols[1])
+    w = py_write(x)
+    r = py_read(E.BevelInfo, w[1]) if w[0] == "ok" else ("err", "write")
+    if not (w[0] == "ok" and r[0] == "ok" and r[1] == x and r[2] == len(w[1])):
+        # the defect repaired by 077ef93 is back: a concrete failing input
+        ctx.fail("C01/payload/BevelInfo/version-above-2-loses-real-colours",
+                 "BevelInfo(version=3, real colours) is re-read without its real colours (reader test `version == 2`, writer `>= 2`)",
+                 {"class": "psd_tools.psd.effects_layer.BevelInfo", "kwargs": {}, "bytes": hx(w[1]) if w[0] == "ok" else "-",
+                  "repr": "BevelInfo(version=3, real_highlight_color=..., real_shadow_color=...)"},
+                 {"read": r[0], "cursor": r[2] if r[0] == "ok" else None}, "equal structure and the cursor at the end of the written bytes")
+    for y, what in ((E.OuterGlowInfo(2, native_color=None), "IOError"), (E.OuterGlowInfo(0, native_color=cols[0]), "dropped")):
+        w = py_write(y)
+        r = py_read(E.OuterGlowInfo, w[1]) if w[0] == "ok" else ("err", "write")
+        good = (r == ("err", "IOError")) if what == "IOError" else (r[0] == "ok" and r[1].native_color is None)
+        if not good:
+            ctx.disagree("witness outer_glow_*_not_roundtrip does not replay on the real code", {"case": what, "read": r[:2] if r[0] == "err" else "ok"})
+
+
 def harvest_by_class(files):
     """every element instance of the parsed fixtures, by exact class: {class: [instances]}"""
     import codec_common as cc
@@ -1404,7 +1594,7 @@ def unit2_witnesses(ctx):
 # ---------------------------------------------------------------------------------------------
 # the check
 # ---------------------------------------------------------------------------------------------
-MODEL_CLASSES = list(UNIT1_CLASSES) + UNIT2_CLASSES
+MODEL_CLASSES = list(UNIT1_CLASSES) + UNIT2_CLASSES + UNIT3_CLASSES
 
 
 def run(ctx):
@@ -1434,6 +1624,8 @@ def _run(ctx):
     sink = harvest_by_class(cc.fixtures())
     run_units(ctx, unit2_specs(), sink, seen_cls, fail_cls, excluded_log, "unit2")
     unit2_witnesses(ctx)
+    run_units(ctx, unit3_specs(ctx.rng, ctx.quick), sink, seen_cls, fail_cls, excluded_log, "unit3")
+    unit3_witnesses(ctx)
     seen_cls["MetadataSetting"] += seen_cls.get("MetadataSettings", 0)
     seen_cls["Annotation"] += seen_cls.get("Annotations", 0)
     ctx.extra["payload_points_excluded_by_WF (information; format-excluded, see notes)"] = dict(excluded_log)
@@ -1485,6 +1677,21 @@ def _run(ctx):
         "points, not findings): SectionDividerSetting - signature and blend mode travel together and the sub type follows them "
         "(the writer stores the kind only otherwise; the API setter was repaired for this in 8a503b5), Bytes - at most four bytes "
         "(fp.read(4)), MetadataSetting - the key decides the type of data, StringElement - no adjacent surrogate pair (C19).",
+    ]
+    ctx.notes += [
+        "Unit 3 (psd/effects_layer.py) is modelled and proved: CommonStateInfo, ShadowInfo, OuterGlowInfo, InnerGlowInfo, BevelInfo, "
+        "SolidFillInfo, EffectsLayer (<class>_roundtrip anywhere in a stream, _rewrite_identical, _written_is_length, "
+        "tagged_block_effects_layer, effects_layer_filler; ties effect_types_tied, effect_conditions_tied - the `if` tests that decide "
+        "the version-dependent trailers, from the AST -, unit3_calls_tied). WF: blend modes are BlendMode members (validators), the "
+        "trailer matches the version (format; witnesses outer_glow_v2_without_native_not_roundtrip, "
+        "outer_glow_v0_with_native_not_roundtrip, trailer_below_version2_not_stored, replayed on the real code).",
+        "Finding of unit 3, repaired (repo commit 077ef93): the proof of bevel_info_roundtrip forced `version <= 2` - BevelInfo.read "
+        "took the real colours only for version == 2, BevelInfo.write stores them for version >= 2. Failing input "
+        "BevelInfo(version=3, real colours): re-read without them, and the re-read object could not be written (AttributeError). "
+        "The reader now uses the writer's test; bevel_info_roundtrip holds for every version; "
+        "bevel_version3_lost_real_colours_before_fix keeps the old reader's behaviour as a witness.",
+        "Outside the effect models: a colour the writer needs but that is None (self.native_color.write on None raises "
+        "AttributeError, not struct.error) - such values are not generated.",
     ]
     ctx.assumptions += [
         "payload classes: doubles are compared as 64-bit patterns; pascal strings (Annotation) are their MacRoman bytes (C19)",
